@@ -35,7 +35,7 @@ m = {
  "setup_cmd": "scripts/setup.sh",
  "hooks": {
    "guard": "verif",
-   "enable": "go build -tags verif [-overlay /verif/build/overlay-<id>.json] (overlay regenerated from /repo's current files by cmd/overlaygen at every check run; nothing is committed to /repo)",
+   "enable": "go build -tags verif [-overlay /verif/build/overlay-<id>.json] (overlay regenerated from /repo's current files by cmd/overlaygen at every check run from checks/<id>/overlay.spec: import rewrites sync->shim/vsched and os->vos shims, added harness-only files, and for C10 the registry tuning constant nameToModuleShrinkThreshold turned into a settable variable; nothing is committed to /repo)",
    "baseline_off_cmd": "scripts/baseline_off.sh",
    "source_commits": [],
    "add_only": True,
